@@ -216,4 +216,17 @@ CLAIMED = {
             "an error value (a panic is a violation).",
             "sd-jwt-payload trusted for hashing; Ed25519 trusted.",
             "DESIGN.md §3 C16"),
+    "C05": ("input exploration driven by the TLA+ specifications: Mutate.tla (TLC-enumerated mutation operators applied to valid "
+            "seeds of every entry-point family) plus the case tables TLC generates for the other properties; every call under "
+            "catch_unwind with overflow checks and a hang watchdog",
+            "exploration",
+            "Systematic, grammar-aware input exploration, not a model-checking result: TLC enumerates 189 mutation operators; "
+            "the harness applies them at up to 160 (quick) / all (thorough) positions of 42 seeds and calls every parser, "
+            "decoder, validator and accessor of the seed's family (about 7.7 x 10^5 calls quick, 1.5 x 10^6 thorough), and "
+            "replays the generated tables of C10, C13, C17, C01, C11, C16 (thorough: also C12, C18, C14) reading their panic/"
+            "hang verdicts. Any panic, overflow, hang (watchdog) or abort (process death with breadcrumb) is a violation keyed "
+            "by entry point and panic site.",
+            "Only inputs within one mutation of a seed or inside the other specifications' universes are explored. cargo-fuzz / "
+            "Kani would be the natural tools and are deliberately not used (this task studies one family).",
+            "DESIGN.md §3 C05"),
 }
